@@ -234,4 +234,78 @@ theorem setattrTrait_held {E : Env} {c : TraitCfg} {s s' : St} {name : String} {
       rw [h3, h4] at h2
       omega
 
+/-! ### The tuple validator -/
+
+theorem net_append (a b : List Ev) (id : Id) : net (a ++ b) id = net a id + net b id := by
+  simp only [net, List.filter_append, List.length_append]
+  omega
+
+theorem net_nil (id : Id) : net [] id = 0 := by simp [net]
+
+theorem net_inc (a id : Id) : net [.inc a] id = if a = id then 1 else 0 := by
+  by_cases h : a = id <;> simp [net, List.filter_cons, h]
+
+theorem net_dec (a id : Id) : net [.dec a] id = if a = id then -1 else 0 := by
+  by_cases h : a = id <;> simp [net, List.filter_cons, h]
+
+theorem net_map_inc (l : List Id) (id : Id) : net (l.map .inc) id = (l.count id : Int) := by
+  induction l with
+  | nil => simp [net]
+  | cons a as ih =>
+    have : (a :: as).map Ev.inc = [Ev.inc a] ++ as.map Ev.inc := rfl
+    rw [this, net_append, ih, net_inc, List.count_cons]
+    by_cases h : a = id <;> simp [h] <;> omega
+
+theorem net_map_dec (l : List Id) (id : Id) : net (l.map .dec) id = -(l.count id : Int) := by
+  induction l with
+  | nil => simp [net]
+  | cons a as ih =>
+    have : (a :: as).map Ev.dec = [Ev.dec a] ++ as.map Ev.dec := rfl
+    rw [this, net_append, ih, net_dec, List.count_cons]
+    by_cases h : a = id <;> simp [h] <;> omega
+
+/-- Loop invariant: the events so far amount, for every object, to the slots of
+the tuple under construction (nothing when none has been started). -/
+theorem tupleLoop_exact (ev : Nat → Id → Except Exc Id) (value : List Id) (id : Id) :
+    ∀ (bs : List Id) (i : Nat) (t : Option (List Id)) (evs : List Ev),
+      net evs id = ((t.getD []).count id : Int) →
+      match (tupleLoop ev value i bs t evs).result with
+      | some (some l) => net (tupleLoop ev value i bs t evs).evs id = (l.count id : Int)
+      | _ => net (tupleLoop ev value i bs t evs).evs id = 0
+  | [], i, t, evs, h => by
+    cases t with
+    | none => simpa [tupleLoop] using h
+    | some l => simpa [tupleLoop] using h
+  | b :: bs, i, t, evs, h => by
+    unfold tupleLoop
+    cases hv : ev i b with
+    | error e =>
+      simp only
+      rw [net_append, net_map_dec, h]
+      omega
+    | ok a =>
+      simp only
+      cases t with
+      | some l =>
+        simp only
+        apply tupleLoop_exact ev value id bs
+        simp only [Option.getD_some] at h ⊢
+        rw [net_append, net_inc, h, List.count_append, List.count_cons, List.count_nil]
+        by_cases ha : a = id <;> simp [ha]
+      | none =>
+        simp only
+        simp only [Option.getD_none, List.count_nil] at h
+        by_cases hab : a = b
+        · simp only [hab, ne_eq, not_true_eq_false, ↓reduceIte]
+          apply tupleLoop_exact ev value id bs
+          simp only [Option.getD_none, List.count_nil]
+          rw [net_append, net_append, net_inc, net_dec, h]
+          by_cases ha : b = id <;> simp [ha]
+        · simp only [ne_eq, hab, not_false_eq_true, ↓reduceIte]
+          apply tupleLoop_exact ev value id bs
+          simp only [Option.getD_some]
+          rw [net_append, net_append, net_inc, net_map_inc, h, List.count_append, List.count_cons,
+            List.count_nil]
+          by_cases ha : a = id <;> simp [ha] <;> omega
+
 end TraitsVerif.Lemmas.Ledger
